@@ -7,10 +7,13 @@ import (
 	"errors"
 	"fmt"
 	"io"
+	"log"
 	"math"
+	"net/http"
 	"net/http/httptest"
 	"reflect"
 	"strings"
+	"time"
 	"unicode/utf8"
 
 	"github.com/gookit/rux"
@@ -20,7 +23,7 @@ import (
 // engine render (C19): the response helpers of rux.Context and the renderers of pkg/render, called from
 // the handler of a real route against the recording ResponseWriter of the writer engine.
 //
-//	req <GET|HEAD|POST> <accept-hex|none> <ct-hex|none>
+//	req <GET|HEAD|POST> <accept-hex|none> <ct-hex|none> [<wkind>]
 //	status <code> | hdr <k> <v>
 //	text <status> <data> <script> <via> | html … | jsonbytes <status> <data> <script> | blob <status> <ct> <data> <script>
 //	stream <status> <ct> <reads> <script> <readerkind>
@@ -34,6 +37,16 @@ import (
 // <val> is a value spec (s:hex, b:hex, m:hex-json, t:hex-json, n:int, u:kind, nil); <enc> is what the stdlib
 // encoder says about it (hex without json's trailing newline, or `err`) — computed by the generator with the
 // real encoders, which are parameters of the model.
+//
+// <wkind> (0..7, default 0; the model ignores it) says what the underlying writer of the request is: bit 1 the
+// recorder also implements io.ReaderFrom, bit 2 io.StringWriter (wrapRec: what the ResponseWriter of a real
+// net/http server offers; the unchanged rux never calls them, so the log is the one of the plain recorder);
+// bit 4: the same helper lines are run once more behind a real httptest.NewServer and status, Content-Type and
+// body of the answer are compared with what the recorder saw (oracle, see roundTripOracle).
+// <readerkind> of stream (the model ignores it) is the reader that delivers <reads>: 0 a scripted struct reader
+// (no WriteTo), 4 an io.Pipe fed by a goroutine (no WriteTo); and, where <reads> is empty or one chunk together
+// with io.EOF: 1 bytes.Reader, 5 strings.Reader (both WriteTo), 2 io.LimitReader over a longer strings.Reader,
+// 3 struct{ io.Reader } around a strings.Reader (both without WriteTo) — otherwise these fall back to 0.
 type renderEngine struct{}
 
 func init() { register(renderEngine{}) }
@@ -189,6 +202,51 @@ func (r *scriptedReader) Read(p []byte) (int, error) {
 	return n, nil
 }
 
+// streamReader builds the reader of a stream op. stop must be called when Stream has returned (it ends the
+// feeding goroutine of a pipe).
+func streamReader(chunks []rdChunk, kind string) (rd io.Reader, stop func()) {
+	stop = func() {}
+	simple := len(chunks) == 0 || (len(chunks) == 1 && chunks[0].kind == 'f')
+	var all []byte
+	if len(chunks) == 1 {
+		all = chunks[0].data
+	}
+	switch {
+	case kind == "4":
+		// every chunk is one Write into the pipe (= one Read of io.Copy, the data sizes are far below its buffer);
+		// io.EOF / an error come with the next Read, which is not observable
+		pr, pw := io.Pipe()
+		done := make(chan struct{})
+		go func() {
+			defer close(done)
+			for _, c := range chunks {
+				if _, err := pw.Write(c.data); err != nil {
+					return
+				}
+				switch c.kind {
+				case 'f':
+					_ = pw.Close()
+					return
+				case 'x':
+					_ = pw.CloseWithError(errRead)
+					return
+				}
+			}
+			_ = pw.Close()
+		}()
+		return pr, func() { _ = pr.Close(); <-done }
+	case kind == "1" && simple:
+		return bytes.NewReader(all), stop
+	case kind == "5" && simple:
+		return strings.NewReader(string(all)), stop
+	case kind == "2" && simple:
+		return io.LimitReader(strings.NewReader(string(all)+"trailer"), int64(len(all))), stop
+	case kind == "3" && simple:
+		return struct{ io.Reader }{strings.NewReader(string(all))}, stop
+	}
+	return &scriptedReader{chunks: chunks}, stop
+}
+
 func parseReadsTok(s string) ([]rdChunk, bool) {
 	if s == "-" {
 		return nil, true
@@ -297,6 +355,7 @@ type rReqCfg struct {
 	meth   string
 	accept *string
 	ct     *string
+	wkind  int
 }
 
 // the recorder of the render engine: recWriter + a queue of scripted answers
@@ -371,7 +430,7 @@ func (renderEngine) Run(ops []string) (ans []string, oracle []string) {
 					escaped = true
 				}
 			}()
-			r.ServeHTTP(rec, req)
+			r.ServeHTTP(wrapRec(rec, cfg.wkind), req)
 		}()
 		if ctx != nil {
 			if endIdx >= 0 {
@@ -382,6 +441,9 @@ func (renderEngine) Run(ops []string) (ans []string, oracle []string) {
 				ans[endIdx] = fmt.Sprintf("%s %s sent=%s errs=%d ;; len=%d st=%d ct=%s", word, rec.logString(), rec.sent,
 					len(ctx.Errors), ctx.Length(), ctx.StatusCode(), rec.ctString())
 				oracle = append(oracle, renderOracle(cfg, rec, execs, escaped)...)
+				if cfg.wkind&rkRoundTrip != 0 {
+					oracle = append(oracle, roundTripOracle(cfg, rec, lines, execs, escaped)...)
+				}
 			}
 		} else {
 			oracle = append(oracle, "C19 harness: the handler never ran")
@@ -398,9 +460,18 @@ func (renderEngine) Run(ops []string) (ans []string, oracle []string) {
 		}
 		switch f[0] {
 		case "req":
-			if len(f) != 4 || (f[1] != "GET" && f[1] != "HEAD" && f[1] != "POST") {
+			if (len(f) != 4 && len(f) != 5) || (f[1] != "GET" && f[1] != "HEAD" && f[1] != "POST") {
 				ans[i] = "bad-op"
 				continue
+			}
+			wkind := 0
+			if len(f) == 5 {
+				wk, ok := parseNatOK(f[4])
+				if !ok || wk > 7 {
+					ans[i] = "bad-op"
+					continue
+				}
+				wkind = wk
 			}
 			var acc, ct *string
 			okAll := true
@@ -419,7 +490,7 @@ func (renderEngine) Run(ops []string) (ans []string, oracle []string) {
 				continue
 			}
 			serve(-1)
-			cfg = rReqCfg{meth: f[1], accept: acc, ct: ct}
+			cfg = rReqCfg{meth: f[1], accept: acc, ct: ct, wkind: wkind}
 			ans[i] = "ok"
 		case "end":
 			if len(f) != 1 {
@@ -488,15 +559,8 @@ func runRenderHelper(c *rux.Context, rec *renderRec, ln rLine, ans []string) (ex
 	case "stream":
 		setScript(f[4])
 		chunks, _ := parseReadsTok(f[3])
-		var rd io.Reader = &scriptedReader{chunks: chunks}
-		if f[5] == "1" && (len(chunks) == 0 || (len(chunks) == 1 && chunks[0].kind == 'f')) {
-			// a reader with WriteTo: the same bytes in one go
-			var all []byte
-			if len(chunks) == 1 {
-				all = chunks[0].data
-			}
-			rd = bytes.NewReader(all)
-		}
+		rd, stop := streamReader(chunks, f[5])
+		defer stop()
 		c.Stream(atoi(f[1]), mustUnhx(f[2]), rd)
 	case "json":
 		setScript(f[4])
@@ -856,6 +920,114 @@ func renderOracle(cfg rReqCfg, rec *renderRec, execs []rExec, escaped bool) (out
 	return
 }
 
+/**************** the same request behind a real net/http server ****************/
+
+const rkRoundTrip = 4
+
+// roundTripOracle runs the helper lines of the request once more in a handler of a real rux router behind
+// httptest.NewServer (the ResponseWriter of net/http: io.ReaderFrom, io.StringWriter, http.Flusher, implicit
+// 200 on the first write, …) and compares what the client receives with what the recording writer saw, which the
+// model has answered for. Only where net/http adds nothing of its own: GET/POST, every write accepted in full,
+// no panic, a committed status of 200..599 that allows a body, no Content-Length set by the handler. A request
+// that cannot be made (no listener in this sandbox, transport refuses the header) is skipped.
+func roundTripOracle(cfg rReqCfg, rec *renderRec, lines []rLine, execs []rExec, escaped bool) (out []string) {
+	if escaped || (cfg.meth != "GET" && cfg.meth != "POST") {
+		return
+	}
+	if len(rec.log) == 0 || rec.log[0].kind != 'h' {
+		return
+	}
+	code := rec.log[0].code
+	if code < 200 || code > 599 || code == 204 || code == 304 {
+		return
+	}
+	for _, e := range rec.log {
+		if e.kind == 'w' && (e.err || e.n != len(e.data)) {
+			return
+		}
+	}
+	maxIdx := 0
+	for _, ex := range execs {
+		if ex.panicked {
+			return
+		}
+		if ex.f[0] == "hdr" && http.CanonicalHeaderKey(mustUnhx(ex.f[1])) == "Content-Length" {
+			return
+		}
+	}
+	for _, ln := range lines {
+		if ln.idx > maxIdx {
+			maxIdx = ln.idx
+		}
+	}
+	if cfg.accept != nil && *cfg.accept != strings.Trim(*cfg.accept, " \t") {
+		return // the server trims the field value
+	}
+
+	var status int
+	var ctype, body string
+	ok := func() (ok bool) {
+		defer func() {
+			if recover() != nil {
+				ok = false
+			}
+		}()
+		scratch := make([]string, maxIdx+1)
+		dummy := &renderRec{recWriter: newRecWriter(nil)}
+		r := rux.New()
+		r.Add("/p", func(c *rux.Context) {
+			for _, ln := range lines {
+				runRenderHelper(c, dummy, ln, scratch)
+			}
+		}, "GET", "HEAD", "POST")
+		srv := httptest.NewUnstartedServer(http.HandlerFunc(func(w http.ResponseWriter, q *http.Request) {
+			if cfg.ct != nil {
+				w.Header()["Content-Type"] = []string{*cfg.ct}
+			}
+			r.ServeHTTP(w, q)
+		}))
+		srv.Config.ErrorLog = log.New(io.Discard, "", 0)
+		srv.Start()
+		defer srv.Close()
+		req, err := http.NewRequest(cfg.meth, srv.URL+"/p", nil)
+		if err != nil {
+			return false
+		}
+		if cfg.accept != nil {
+			req.Header["Accept"] = []string{*cfg.accept}
+		}
+		client := srv.Client()
+		client.Timeout = 5 * time.Second
+		client.CheckRedirect = func(*http.Request, []*http.Request) error { return http.ErrUseLastResponse }
+		resp, err := client.Do(req)
+		if err != nil {
+			return false
+		}
+		defer resp.Body.Close()
+		bs, err := io.ReadAll(resp.Body)
+		if err != nil {
+			return false
+		}
+		status, ctype, body = resp.StatusCode, resp.Header.Get("Content-Type"), string(bs)
+		return true
+	}()
+	if !ok {
+		return
+	}
+	if status != code {
+		out = append(out, fmt.Sprintf("C19 real server: the client received status %d, the recording writer saw %s", status, rec.logString()))
+	}
+	if body != string(rec.body()) {
+		out = append(out, fmt.Sprintf("C19 real server: the client received body %q, the recording writer saw %q", body, rec.body()))
+	}
+	if rec.sent != "none" && rec.sent != "-" {
+		if want := strings.Trim(mustUnhx(rec.sent), " \t"); want != "" && ctype != want {
+			out = append(out, fmt.Sprintf("C19 real server: the client received Content-Type %q, at the commit the recording writer had %q", ctype, want))
+		}
+	}
+	return
+}
+
 func xmlSafe(s string) bool {
 	if !utf8.ValidString(s) {
 		return false
@@ -1152,11 +1324,14 @@ func rData(r *Rand) string {
 }
 
 func rReads(r *Rand) (string, string) {
+	// the reader: for the simple shapes any kind (with and without WriteTo), otherwise scripted or a pipe
+	simpleKind := func() string { return fmt.Sprint(r.Intn(6)) }
+	otherKind := func() string { return r.Pick([]string{"0", "0", "4"}) }
 	switch r.Intn(8) {
 	case 0:
-		return "-", fmt.Sprint(r.Intn(2))
+		return "-", simpleKind()
 	case 1: // everything at once, together with io.EOF
-		return hx(rString(r, false)+"x") + ":f", fmt.Sprint(r.Intn(2))
+		return hx(rString(r, false)+"x") + ":f", simpleKind()
 	case 2: // one byte at a time
 		s := rString(r, false) + "z"
 		if len(s) > 10 {
@@ -1166,7 +1341,7 @@ func rReads(r *Rand) (string, string) {
 		for i := range parts {
 			parts[i] = hx(s[i:i+1]) + ":n"
 		}
-		return strings.Join(parts, ","), "0"
+		return strings.Join(parts, ","), otherKind()
 	}
 	n := r.Range(1, 5)
 	parts := make([]string, n)
@@ -1184,7 +1359,7 @@ func rReads(r *Rand) (string, string) {
 		}
 		parts[i] = d + ":" + k
 	}
-	return strings.Join(parts, ","), "0"
+	return strings.Join(parts, ","), otherKind()
 }
 
 func (renderEngine) genHelper(r *Rand, faulty bool) string {
@@ -1273,7 +1448,16 @@ func (e renderEngine) Gen(r *Rand, tier string) Case {
 		if r.Chance(1, 5) {
 			ct = hx(r.Pick(rCTs[:3]))
 		}
-		ops = append(ops, fmt.Sprintf("req %s %s %s", meth, rAccept(r), ct))
+		// the underlying writer: a third of the requests get a recorder with the optional interfaces of a real
+		// net/http writer; in the thorough tier some are repeated behind a real server
+		wkind := 0
+		if r.Chance(1, 3) {
+			wkind = r.Range(1, recVariantMask)
+		}
+		if tier == "thorough" && r.Chance(1, 25) {
+			wkind |= rkRoundTrip
+		}
+		ops = append(ops, fmt.Sprintf("req %s %s %s %d", meth, rAccept(r), ct, wkind))
 		if r.Chance(1, 4) {
 			ops = append(ops, fmt.Sprintf("status %d", r.PickInt(rStatuses)))
 		}
@@ -1345,6 +1529,23 @@ func (renderEngine) Corpus() []Case {
 			"stream 200 "+hx("a/b")+" "+hx("ab")+":n,"+hx("cd")+":x,"+hx("ef")+":n - 0", "end",
 			"stream 200 "+hx("a/b")+" "+hx("abc")+":n,"+hx("def")+":n 3:0,2:0 0", "end",
 			"stream 0 - - - 1", "end"),
+		// the underlying writer implements io.ReaderFrom / io.StringWriter (as behind a real server); readers without
+		// WriteTo (LimitReader, wrapped reader, pipe, scripted) and with it (bytes/strings.Reader): the status given
+		// to Stream is committed before the first byte whatever path io.Copy takes
+		mk("corpus-readerfrom", "req GET none none 1", "stream 201 "+hx("text/csv")+" "+hx("id,name\n1,inhere\n")+":f - 3", "end",
+			"stream 202 "+hx("text/csv")+" "+hx("id,name\n")+":f - 2", "end",
+			"stream 502 "+hx("text/plain")+" "+hx("up")+":n,"+hx("stream down")+":n - 4", "end",
+			"stream 203 "+hx("a/b")+" "+hx("ab")+":n,-:n,"+hx("cd")+":x - 4", "end",
+			"stream 404 "+hx("a/b")+" - - 2", "end", "stream 201 "+hx("a/b")+" "+hx("all")+":f - 5", "end",
+			"req POST none none 3", "status 418", "stream 0 "+hx("a/b")+" "+hx("abc")+":n,"+hx("def")+":n 3:0,2:0 4", "end",
+			"text 201 "+hx("t")+" - 0", "end", "json 202 "+obj+" "+encJSON(ov, 0)+" -", "end",
+			"req GET none "+hx("x/y")+" 2", "stream 206 - "+hx("z")+":f - 1", "end", "httperror 500 "+hx("e")+" -", "end"),
+		// the same behind a real net/http server (round trip compared with the recorder)
+		mk("corpus-realserver", "req GET none none 4", "stream 201 "+hx("text/csv")+" "+hx("id,name\n1,inhere\n")+":f - 3", "end",
+			"stream 202 "+hx("text/csv")+" "+hx("id,name\n")+":f - 2", "end",
+			"stream 502 "+hx("text/plain")+" "+hx("up")+":n,"+hx("stream down")+":n - 4", "end",
+			"req POST "+hx("application/json")+" none 7", "status 201", auto(obj), "end", "text 404 "+hx("nope")+" - 0", "end",
+			"redirect 302 "+hx("/a")+" "+hx(redirectBody("/a", 302))+" -", "end"),
 		// failing writes: Text panics (WriteBytes), JSON reports
 		mk("corpus-faulty", "req GET none none", "text 200 "+hx("hi")+" 0:1 0", "json 200 "+obj+" "+encJSON(ov, 0)+" -", "end",
 			"json 200 "+obj+" "+encJSON(ov, 0)+" 3:1", "end", "jsonp 200 "+hx("cb")+" "+obj+" "+encJSON(ov, 0)+" 9:0,0:1", "end",
